@@ -25,9 +25,13 @@ CONSTANTS Protos, MaxFrames, MODE, CHECKSORT, EXPORT
 
 (* "Hx": a crafted frame -- the HTTP gateway's code followed by a payload length of 2 and two payload bytes.  The gateway
    frame is code + length 0 and nothing else: no such frame is ever written, and the decoder must not take it for "H"
-   (it would re-encode as the 3-byte frame, which is not what was consumed).                                        *)
-Code(p) == CASE p = "B" -> 1 [] p = "G" -> 2 [] p \in {"H", "Hx"} -> 3 [] p = "U1" -> 4 [] p = "U2" -> 5 [] OTHER -> 6
-Size(p) == CASE p = "B" -> 2 [] p = "G" -> 5 [] p = "H" -> 3 [] p = "Hx" -> 5 [] p = "U1" -> 4 [] p = "U2" -> 6 [] OTHER -> 8
+   (it would re-encode as the 3-byte frame, which is not what was consumed).
+   "U1x".."U3x": an unknown frame whose length prefix is written with padding bytes (a non-minimal varint).  Varints are read
+   strictly; a decoder that accepted the padded form would re-encode the frame shorter than what it consumed.            *)
+Crafted(p) == CASE p = "H" -> "Hx" [] p = "U1" -> "U1x" [] p = "U2" -> "U2x" [] p = "U3" -> "U3x" [] OTHER -> p
+IsCrafted(p) == p \in {"Hx", "U1x", "U2x", "U3x"}
+Code(p) == CASE p = "B" -> 1 [] p = "G" -> 2 [] p \in {"H", "Hx"} -> 3 [] p \in {"U1", "U1x"} -> 4 [] p \in {"U2", "U2x"} -> 5 [] OTHER -> 6
+Size(p) == CASE p = "B" -> 2 [] p = "G" -> 5 [] p = "H" -> 3 [] p = "Hx" -> 5 [] p = "U1x" -> 6 [] p = "U2x" -> 8 [] p = "U3x" -> 10 [] p = "U1" -> 4 [] p = "U2" -> 6 [] OTHER -> 8
 
 RECURSIVE Insert(_, _)
 Insert(s, p) == IF s = <<>> THEN <<p>>
@@ -45,7 +49,7 @@ Encode(ps) == Wire(Sort(ps))
 ReadFrame(data) ==
   IF data = <<>> \/ data[1].j # 1 THEN [ok |-> FALSE, p |-> "", n |-> 0]
   ELSE LET p == data[1].p IN
-       IF p # "Hx" /\ Len(data) >= Size(p) /\ \A j \in 1..Size(p) : data[j].p = p /\ data[j].f = data[1].f /\ data[j].j = j
+       IF ~IsCrafted(p) /\ Len(data) >= Size(p) /\ \A j \in 1..Size(p) : data[j].p = p /\ data[j].f = data[1].f /\ data[j].j = j
        THEN [ok |-> TRUE, p |-> p, n |-> Size(p)] ELSE [ok |-> FALSE, p |-> "", n |-> 0]
 
 Drop(s, n) == IF n >= Len(s) THEN <<>> ELSE SubSeq(s, n + 1, Len(s))
@@ -71,12 +75,12 @@ Pick == /\ stage = 0 /\ stage' = 1 /\ UNCHANGED ps
         /\ \/ kind' = "roundtrip" /\ cut' = 0
            \/ kind' = "raw" /\ cut' = 0                                   \* frames concatenated in construction order
            \/ kind' = "truncated" /\ cut' \in 0..(Len(Encode(ps)) - 1)      \* canonical encoding cut after `cut` bytes
-           \/ kind' = "crafted" /\ Sorted(ps) /\ cut' \in {k \in 1..Len(ps) : ps[k] = "H"}   \* frame `cut` replaced by its crafted variant
+           \/ kind' = "crafted" /\ Sorted(ps) /\ cut' \in {k \in 1..Len(ps) : Crafted(ps[k]) # ps[k]}   \* frame `cut` replaced by its crafted variant
 Next == Pick
 Spec == Init /\ [][Next]_vars
 Complete == stage = 1
 
-Input == CASE kind = "roundtrip" -> Encode(ps) [] kind = "raw" -> Wire(ps) [] kind = "crafted" -> Wire([ps EXCEPT ![cut] = "Hx"]) [] OTHER -> SubSeq(Encode(ps), 1, cut)
+Input == CASE kind = "roundtrip" -> Encode(ps) [] kind = "raw" -> Wire(ps) [] kind = "crafted" -> Wire([ps EXCEPT ![cut] = Crafted(ps[cut])]) [] OTHER -> SubSeq(Encode(ps), 1, cut)
 Result == Decode(Input)
 (* declarative expectation *)
 Prefixes(w) == {k \in 0..Len(w) : k = 0 \/ w[k].j = Size(w[k].p)}            \* frame boundaries
